@@ -33,6 +33,7 @@ func runC13(r *Report, p *Program) {
 	c13R5(h)
 	c13R6(h)
 	c13R7(h)
+	c13R8(h)
 }
 
 func (p *Program) constInt(rel, name string) (int64, bool) {
